@@ -514,12 +514,14 @@ class FileIndex(Index):
             # The TOC lists every committed segment of this generation. Only
             # carry over the segments of re-used readers that were not opened
             # from a TOC at all (e.g. the in-memory segment of a
-            # BufferedWriter). Segments of an older generation that are no
+            # BufferedWriter) and were not flushed to a committed segment
+            # since. Segments of an older generation that are no
             # longer in the TOC were merged away or cleared: their documents
             # are already in the new segments, or are gone.
             for r, _ in reuse.leaf_readers():
                 segment = r.segment()
                 if (segment is not None and r.generation() is None
+                    and not getattr(segment, "flushed", False)
                     and segment not in segments):
                     segments.append(segment)
 
